@@ -49,17 +49,3 @@ func zzH_C09_bitmap_verify(t *zzT) {
 	t.Reach("returned")
 }
 
-// Bits.read/write agree with the little-endian bit layout for every in-range index.
-//
-//zz:opt loop=24
-func zzH_C09_bits_rw(t *zzT) {
-	bl := t.Range("len", 1, 3)
-	b := Bits(t.Bytes("b", bl))
-	i := t.Range("i", 0, bl*8-1)
-	orig := b.read(i)
-	t.Assert(orig == ((b[i/8]>>(uint(i)%8))&1 == 1), "read returns bit i")
-	val := t.Bool("val")
-	b.write(i, val)
-	t.Assert(b.read(i) == val, "write then read returns the written bit")
-	t.Reach("end")
-}
